@@ -7,6 +7,8 @@ D = {
  "C03-m1": ("M c03_m_days_u64", "quick"), "C03-m2": ("M c03_m_date_signed (cut num_days_truncates); also M c06_m_accessors", "quick"),
  "C04-m1": ("K c04_wall_clock_getters", "quick"), "C04-m2": ("M c04_m_display_total", "quick"),
  "C05-m1": ("M c05_m_days_since_unix_epoch", "quick"), "C05-m2": ("K c05_table_local_one (patch rebased onto the F12/F14 fix)", "quick"),
+ "C05-m3": (None, "missed: the mutated branch (next-year probing in find_local_time_type) only matters for rules whose transitions lie on the year boundary; c05_m_rule_offset_at assumes, like the property's quantifier, transitions more than one day inside each year"),
+ "C05-m4": ("M c05_m_rule_local", "quick"),
  "C06-m1": ("M c06_m_mul", "quick"), "C06-m2": ("M c06_m_new", "quick"),
  "C07-m1": ("M c07_m_time_add", "quick"), "C07-m2": ("M c07_m_time_diff", "quick"),
  "C08-m1": ("K c08_add_sub_months", "quick"), "C08-m2": ("K c08_years_since", "quick"),
@@ -17,6 +19,8 @@ D = {
  "C13-m1": (None, "missed: parser sign table for %G; the item-level inverse harnesses cover %Y-%m-%d and %H:%M:%S only"),
  "C13-m2": ("M c12_m_year_items (registered for C13 as well)", "quick"),
  "C14-m1": ("K c14_date_sound_ymd", "quick"), "C14-m2": ("K c14_ambiguous_offset_choice", "quick"),
+ "C14-m3": (None, "missed: c14_m_parsed_timestamp decides the time of day of the reconstruction, not its date (the date claim stayed unknown at 90 s per query and was dropped); the mutant changes only the year at a year boundary with second = 60"),
+ "C14-m4": ("K c14_time_sound", "quick"),
  "C15-m1": ("M c06_m_mul (no_panic; registered for C15 as well)", "quick"), "C15-m2": ("M c15_m_rfc3339_writer_ok", "quick"),
  "C16-m1": ("M c05_m_rule_day_julian (registered for C16 as well)", "quick"), "C16-m2": ("K c16_zone_local_total, c16_zone_offset_at_total (type indices left unconstrained)", "quick"),
  "C17-m1": ("M c17_m_duration_round", "quick"), "C17-m2": ("M c17_m_subsec", "quick"),
